@@ -660,6 +660,24 @@ pub fn generate(seed: u64) -> History {
             push!(&mut md, &mut ops, Op::Set { i, j, v: false });
         }
     }
+    // "heavy rows": a few rows with 64..160 ones in the sparse region (long sparse vectors), which
+    // later receive short rows while the column index is off - the merge of a short into a long
+    // sparse vector, which the solver itself only performs on much shorter rows
+    let heavy_rows: Vec<usize> = if fd0 >= 80 && r.chance(1, 6) {
+        let n = r.urange(1, 3);
+        let rows: Vec<usize> = (0..n).map(|_| r.usize_below(h)).collect();
+        for &i in &rows {
+            let want = r.urange(64, 160.min(fd0 - 4));
+            let mut cols: Vec<usize> = (0..fd0).collect();
+            r.shuffle(&mut cols);
+            for &j in &cols[..want] {
+                push!(&mut md, &mut ops, Op::Set { i, j, v: true });
+            }
+        }
+        rows
+    } else {
+        vec![]
+    };
     // a few rows with a single one in the sparse region (they drive the elimination macro)
     if !(0..h).any(|i| (0..fd0).any(|j| md.c[i][j] == C::O)) {
         push!(&mut md, &mut ops, Op::Set { i: 0, j: 0, v: true });
@@ -679,7 +697,7 @@ pub fn generate(seed: u64) -> History {
             push!(&mut md, &mut ops, Op::SwapCols { i, j, hint: 0 });
         }
     }
-    let never_index = r.chance(1, 10);
+    let never_index = r.chance(1, 10) || (!heavy_rows.is_empty() && r.chance(1, 2));
     let nops = 10 + r.usize_below(70);
     if !never_index {
         push!(&mut md, &mut ops, Op::Enable);
@@ -758,7 +776,7 @@ pub fn generate(seed: u64) -> History {
                 }
             }
             6 | 7 => {
-                let dest = r.usize_below(md.h);
+                let dest = if !heavy_rows.is_empty() && !md.indexed && r.chance(2, 3) { *r.pick(&heavy_rows) } else { r.usize_below(md.h) };
                 let src = r.usize_below(md.h);
                 let from_u = r.chance(1, 2);
                 push!(&mut md, &mut ops, Op::AddRows { dest, src, from_u });
